@@ -571,7 +571,7 @@ func checkC17(p *core.Program, r *core.Report) {
 		r.Extra["automaton_imprecision"] = a.unknown
 	}
 	r.Extra["automaton_states"] = a.n
-	r.Floor("trace symbols checked", 1400)
+	r.Floor("trace symbols checked", 1000)
 	r.Floor("width agreements", 4)
 
 	// ---- O17.5 dimensions
